@@ -50,6 +50,7 @@ structure Cfg where
   dpriv : List Nat         -- coefficients of the node's secret polynomial
   olddpub : List Nat       -- logs of the old public polynomial (resharing receivers)
   fixLeaving : Bool := false  -- repaired phase check of ProcessResponses (fixes/C11-leaving-dealer-responses.patch)
+  fixPhase : Bool := false    -- repaired "finish now?" test (fixes/C11-agreement-phase-decision.patch)
 deriving Repr
 
 structure Deal where
@@ -349,6 +350,13 @@ def myJustifs (c : Cfg) (st : St) : List Justification :=
   (c.newNodes.filter (fun n => st.statuses c.oidx n.index)).map
     (fun n => ⟨n.index, priEvalI c.q c.dpriv n.index⟩)
 
+/-- The "can we finish in the response phase?" test. As coded it looks at every row — including the
+    rows of evicted dealers, whose content at the node's own column is private and never broadcast.
+    Repaired: rows of evicted dealers are ignored (they are discarded by `computeResult` anyway). -/
+def finishTest (c : Cfg) (st : St) : Bool :=
+  if c.fixPhase then c.oldNodes.all (fun n => st.evicted n.index || allTrue c st.statuses n.index)
+  else completeSuccess c st.statuses
+
 /-- The deferred `checkIfEvicted(ResponsePhase)`: it runs when no error is being returned. -/
 def respFin (c : Cfg) (p : St × RespOut) : St × RespOut :=
   match p.2 with
@@ -370,11 +378,11 @@ def answerOwnRow (c : Cfg) (st : St) : St :=
 
 /-- Body of `ProcessResponses` after the phase checks. -/
 def respCore (c : Cfg) (st : St) (bundles : List ResponseBundle) : St × RespOut :=
-  if !c.fastSync && bundles.isEmpty && c.canReceive && completeSuccess c st.statuses then
+  if !c.fastSync && bundles.isEmpty && c.canReceive && finishTest c st then
     ((computeResult c st).1, .result (computeResult c st).2)
   else
     let st1 := respAfterLoop c st bundles
-    if !(respLoop c st bundles).foundComplaint && completeSuccess c st1.statuses then
+    if !(respLoop c st bundles).foundComplaint && finishTest c st1 then
       if c.canReceive then
         ((computeResult c { st1 with phase := .finish }).1, .result (computeResult c { st1 with phase := .finish }).2)
       else ({ st1 with phase := .finish }, .done)
